@@ -4954,6 +4954,10 @@ static size_t ZSTD_loadDictionaryContent(ZSTD_matchState_t* ms,
     if (srcSize <= HASH_READ_SIZE) return 0;
 
     ZSTD_overflowCorrectIfNeeded(ms, ws, params, ip, iend);
+    /* Overflow correction rebases the window and invalidates the dictionary
+     * of the context : the one being loaded here starts after it and remains
+     * valid, express its end in the corrected index space. */
+    ms->loadedDictEnd = params->forceWindow ? 0 : (U32)(iend - ms->window.base);
 
     switch(params->cParams.strategy)
     {
